@@ -28,19 +28,28 @@ TEXT["codec"] = ("XsCodec transcribes the TTL and read-option grammar (parse_ttl
                  "Parse(Render(v)) = v and rejection of malformed input over the whole alphabet and emits one vector per enumerated input; every vector is run "
                  "through the real parsers and renderers (string, query-string and JSON spellings, plus 2000 seeded whole-ReadOptions round trips) and the results are "
                  "validated by TLC against the same operators.")
+TEXT["dur"] = ("XsDurable (code-layer TLA+ model of what survives a crash: per operation the steps CAS write, batch into fjall's "
+               "user-space journal buffer, spill / flush to the OS, fsync, ack; CrashKill, CrashPower with torn tails, Recover) is "
+               "exhausted by TLC for small constants with XsDurProps!ImageVerdict as invariant; operation lists (TLC -simulate of "
+               "that model, seeded random, bulk data) are run on the real Store in a child process; for every store-mutating system "
+               "call after the first ACK a real SIGKILL image (ptrace supervisor) and reconstructed power-loss images (strace log, "
+               "tools/durimg.py) are opened by the real Store::new in a fresh process; TLC validates every observation against the "
+               "observer spec TraceDurable, which judges with the same XsDurProps operators.")
 NOTE = {
  "codec": "Trusted: the transcription is checked against the code by the vectors themselves. Limit of the technique (DESIGN 5, C12): the grammar is exhaustive at token level, data values are classes.",
  "http": "Trusted: the harness' raw HTTP client and response parser. Bounded: one request per connection; follow routes over HTTP are exercised separately.",
+ "dur": "Trusted: TLC, the ptrace supervisor, the strace-based reconstruction (self-checked against the real directory on every run), the ordered-metadata file-system model of tools/durimg.py, the abstraction of observations. Bounded: MC_dur_*.cfg constants; crash points at system-call granularity plus torn journal writes; memtable flush / journal rotation sampled by bulk runs, not modelled. CAS content durability against power loss is not claimed.",
  "conc": "Trusted: TLC, the gate hooks (events are logged under one mutex after the state change), rank abstraction of ids. Bounded: MC_conc_*.cfg constants; schedules sampled.",
  "store": "Trusted: TLC, the harness' abstraction of concrete values back to model tokens, the xs_verif hooks (virtual clock, GC gate, raw dump). Bounded: model constants in spec/MC_store_*.cfg; behaviours sampled, not enumerated.",
 }
 TECH = {
+ "dur": "TLC model checking of XsDurable + real kill images and reconstructed power-loss images recovered by the real store + TLC trace validation (TraceDurable)",
  "codec": "TLC enumeration of a TLA+ transcription of the codec + one implementation test per model case, results validated by TLC",
  "http": "TLC trace validation (TraceStore + status rules) of model-generated behaviours executed over HTTP, plus malformed request classes",
  "conc": "TLC model checking of XsConcurrent + gate-scheduled replay/exploration of real threads + TLC trace validation (TraceFollow)",
  "store": "TLC model checking of XsStore + TLC trace validation (TraceStore) of replayed behaviours on the real store",
 }
-DESIGN = {"codec": "DESIGN.md 5 (C12)","http": "DESIGN.md 5 (C13), Appendix D","conc": "DESIGN.md 3, 4.1, 5 (C02 C03 C11)", "store": "DESIGN.md 3, 4, 5 (C01 C05 C07 C08 C09 C20)"}
+DESIGN = {"dur": "DESIGN.md 3 (XsDurable), 4.4, 5 (C04 C10 C07); docs/dur-notes.md", "codec": "DESIGN.md 5 (C12)","http": "DESIGN.md 5 (C13), Appendix D","conc": "DESIGN.md 3, 4.1, 5 (C02 C03 C11)", "store": "DESIGN.md 3, 4, 5 (C01 C05 C07 C08 C09 C20)"}
 
 hooks_commits = subprocess.run("git -C /repo log --format=%h --grep='^verif hooks' ", shell=True, capture_output=True, text=True).stdout.split()
 
